@@ -174,7 +174,23 @@ pub fn fold(cu: u32) -> u32 {
 #[inline(always)]
 fn apply_uppercase(fr: &FoldRange, cu: u32) -> u32 {
     let cs = fr.apply(cu);
-    if cu >= 128 && cs < 128 { cu } else { cs }
+    if (cu >= 128 && cs < 128) || uppercases_to_multiple(cu) {
+        cu
+    } else {
+        cs
+    }
+}
+
+/// \return whether toUpperCase of \p cu is more than one code point although \p cu has a
+/// simple uppercase mapping. The legacy `Canonicalize` leaves such characters unchanged.
+/// These are the Greek letters with ypogegrammeni (SpecialCasing.txt), e.g. U+1F80 whose
+/// upper-casing is U+1F08 U+0399 while its simple mapping is U+1F88.
+#[inline(always)]
+fn uppercases_to_multiple(cu: u32) -> bool {
+    matches!(
+        cu,
+        0x1F80..=0x1F87 | 0x1F90..=0x1F97 | 0x1FA0..=0x1FA7 | 0x1FB3 | 0x1FC3 | 0x1FF3
+    )
 }
 
 fn uppercase(cu: u32) -> u32 {
